@@ -27,6 +27,9 @@ def app(environ, start_response):
             if pat == ["stall"]:
                 while True:
                     yield b""
+            if pat == ["blocked"]:
+                while True:
+                    yield b"piece"
             for x in pat:
                 yield b"piece" if x == "p" else b""
         return body(list(PATTERN[0]))
@@ -62,6 +65,7 @@ class Rig:
         self.listen.pending.append(self.f)
         self.nbytes = 0
         self.ticks = 0
+        PATTERN[0] = None
 
     def tick(self, ev):
         ev, arg = ev[0], (ev[1] if len(ev) > 1 else None)
@@ -83,6 +87,9 @@ class Rig:
                 # complete what was begun so that exactly one well formed persistent request ends here
                 self.f.inbox.extend(b"\r\n\r\n" if 0 < self.nbytes <= 2 and False else b"")
                 self.f.inbox.extend(REQ if self.nbytes == 0 else self.finish())
+        if PATTERN[0] == ["blocked"] and not self.f.closed:
+            # the peer stopped reading when it sent its request: the kernel takes nothing more, every send() would block
+            self.f.sendplan = ["blockw" if self.f.tls else "block"] * 64
         self.srv.service()
         st = "closed" if self.f.closed else "open"
         self.tymist.tick(tock=self.q)
